@@ -260,6 +260,40 @@ class C12(E1Prop):
     def harnesses(self, tier):
         return [H("prop_C12", "prop_C12.cpp", shards=16)]
 
+    def check(self, tier, seed):
+        rc = super().check(tier, seed)
+        if rc != 0 or tier != "thorough":
+            return rc
+        # thorough add-on: coverage-guided (libFuzzer) exploration of histories through the same interpreter and oracles
+        from . import fuzz
+        import json as _j
+        import os as _os
+        res = fuzz.history_campaign(self.pid, seed, runs=3000000, jobs=8)
+        viol = 0
+        for r in res:
+            for a in r["artifacts"]:
+                core.log(f"[C12] libFuzzer artifact (job {r['job']}):\n{r['log_tail'][-2000:]}")
+                e1.violation(self.pid, a)
+                viol += 1
+        ev_path = _os.path.join(core.EVIDENCE, self.pid + ".json")
+        ev = _j.load(open(ev_path))
+        ev["coverage"]["libfuzzer_histories"] = [{k: r[k] for k in ("job", "execs", "coverage_edges", "wall")} for r in res]
+        ev["coverage"]["evaluations"] += sum(r["execs"] for r in res)
+        ev["violations"] = ev.get("violations", 0) + viol
+        _j.dump(ev, open(ev_path, "w"), indent=1)
+        return 1 if viol else 0
+
+    def replay(self, path):
+        import os as _os
+        if _os.path.basename(path).startswith("fuzz-history-"):
+            from . import fuzz
+            if fuzz.history_replay(path):
+                e1.violation(self.pid, path)
+                return 1
+            core.say(f"replay passes: property={self.pid} {path}")
+            return 0
+        return super().replay(path)
+
 
 # ---------------------------------------------------------------------------------------------- engine E2 (zoo)
 from . import zoo  # noqa: E402
